@@ -56,6 +56,12 @@ Theorem C10_force_bypasses : forall h mode,
 Proof. exact force_bypasses. Qed.
 Print Assumptions C10_force_bypasses.
 
+(** the extracted boolean oracle used by the correspondence run is exactly the gate *)
+Theorem C10_oracle_is_gate : forall x y z mode force,
+  (exists n, open_file (H5file (good_header x y z) true n) mode force = Ok n) <-> gate_specb x y z mode force = true.
+Proof. exact gate_specb_correct. Qed.
+Print Assumptions C10_oracle_is_gate.
+
 (** non-vacuity: the gate really opens and really refuses *)
 Example C10_gate_nonvacuous :
   open_existing (good_header 1 2 0) ReadWrite false = Ok tt /\
